@@ -118,6 +118,15 @@ CLAIMED = {
              'relative offsets) the values on and next to each boundary are assembled one per run: reject iff a constraint is '
              'violated, else the bytes must be the reference encoding. thorough sweeps every width 1..64.',
         note='Trusted: vf/model/encode.py constraint rules; n-bit field accepts -2^(n-1) <= v < 2^n.'),
+    'C13': dict(
+        category='exploration', design_ref='DESIGN.md §3 C13',
+        technique='runtime monitoring: documented-priority selection model + reference encoder over real CLI runs on '
+                  'deliberately ambiguous generated ISA definitions; variant/alternative trial-order probe',
+        text='Ambiguous definitions (several variants / a specific list and a set / overlapping alternatives accepting the same '
+             'text, disallowed pairs) with distinct opcodes and codes; statements over every operand text class incl. register '
+             'names in numeric positions, wrong operand counts, mixed-case mnemonics; the image must carry the encoding of the '
+             'first accepting candidate in the documented order, or the statement must be rejected when none accepts.',
+        note='Trusted: acceptance table and priority classes in vf/oracles/c13.py; ties inside one priority class are DONT_CARE.'),
     'C17': dict(
         category='exploration', design_ref='DESIGN.md §3 C17',
         technique='runtime monitoring: metamorphic file-splitting oracle (split == unsplit == layout model) plus zone/scope '
